@@ -60,6 +60,7 @@ func genC08(cfg Config, emit Emit) error {
 		kinds: []string{"none", "none", "wrongkey", "tamper", "aud", "resource", "ability", "expired", "revoke", "policy", "decoys", "permute", "missing", "nonowner", "case", "nearmiss", "didurl", "urlnear"}}
 	// the handler is handed the caveats as the capability's reader (here a union of readers) reads them
 	emit("reqcraft", []string{"or", "-", "-"}, "crafted/or", true)
+	genRdTree(cfg, emit, 150, 3000)
 	genWorlds(cfg, n, o, func(w *AWorld, class string) {
 		r := cfg.Rng
 		res := []string{"ok", "okfx", "err", "okjoin"}
